@@ -92,6 +92,15 @@ let () =
         let b = Model.observe (Model.run_ids c m o) in
         tok_of_bool (a = b)
     | _ -> failwith "c17.equiv args");
+  (* c17.totality -> "ok", or what stops C17_classification_total *)
+  register "c17.totality" (function
+    | _ ->
+        let un = List.map (fun (a, b) -> ocaml_string a ^ "." ^ ocaml_string b) Model.unclassified in
+        if un <> [] then "unclassified:" ^ String.concat "," un
+        else if not Model.classification_total then "not-total"
+        else if not Model.classification_no_stale then "stale-entry"
+        else if not Model.reset_fields_modelled then "reset-field-not-modelled"
+        else "ok");
   register "c17.classify" (function
     | [s; f] -> ocaml_string (Model.classify_name (coq_string s) (coq_string f))
     | _ -> failwith "c17.classify args")
